@@ -60,6 +60,48 @@ pub struct FnDirective {
     /// `//@ expect-body` + `//@|` lines (only with `//@ external_body`): the ASSUMED contract is tied to the quoted body text; vx refuses
     /// (exit 2, "undecided") when the whitespace-stripped source text of the function body differs from it
     pub expect_body: Vec<String>,
+    /// R23 (opt-in, `//@ hoist-items`): item statements (`struct` / `enum` / `impl`) declared INSIDE the fn body are deleted from the body; the
+    /// template extracts them at module level instead (`//@item <file> :: impl T :: fn f :: struct S`, `//@impl .. ` + `//@in-fn impl T :: fn f`).
+    /// Verus: "internal item statements" are unsupported. Item declarations are not executed, and their scope only shrinks by nesting, so
+    /// hoisting changes no meaning (name clashes would be compile errors of the generated file).
+    pub hoist_items: bool,
+    /// R24 (opt-in, `//@ map-collect-loop <k> ..`): see MapCollect
+    pub map_collect: Vec<MapCollect>,
+    /// R25 (opt-in, `//@ fold-loop ..`): see FoldLoop
+    pub fold_loop: Option<FoldLoop>,
+    /// R26 (opt-in, `//@ eta-ctor <Name> ..`): a tuple-struct constructor passed as a function value to `.map(..)` (`x.map(Name)`) is eta-expanded to
+    /// `x.map(|vx_c| Name(vx_c))` (the same function; Verus: "using a datatype constructor as a function value" is unsupported)
+    pub eta_ctor: Vec<String>,
+    /// R27 (opt-in, `//@ full-range-mut-as-slice`): `&mut v[..]` -> `v.as_mut_slice()`. `impl IndexMut<RangeFull> for Vec<T>` forwards to the slice
+    /// impl, which returns the whole slice: the same `&mut [T]` as `Vec::as_mut_slice` (vstd specifies the latter, not the former).
+    pub full_range_mut: bool,
+}
+
+/// R24 (opt-in, `//@ map-collect-loop <k> [iter=<name>] [src=<name>] [ty=<T>]`): the k-th expression (visiting order) of the form
+///     `RECV.map(|PAT| BODY).collect()`   or   `RECV.map(PATH).collect()`
+/// is rewritten to the loop it denotes by the definitions of `Map::next` (= inner.next().map(f)) and `FromIterator for Vec` (push every item, in order):
+///     `{ let mut vx_out: T = Vec::new(); [let SRC = RECV;] for PAT in [it: ]RECV { let vx_item = BODY; vx_out.push(vx_item); } vx_out }`
+/// (`PATH` is applied as `PATH(vx_x)`; a type ascription on the closure parameter is dropped: a `for` pattern cannot carry one). BODY is the source
+/// text and is visited as usual (rewrites, anchors). A modelling assumption on `core` / `alloc`, logged, like R21.
+/// The `//@|` lines that follow are split at lines consisting of `---` into: ghost lines before the loop / loop spec / proof after `let vx_item = BODY;` /
+/// proof at the end of the loop body / proof after the loop (before the block's value `vx_out`).
+#[derive(Clone, Debug, Default)]
+pub struct MapCollect {
+    pub nth: usize,
+    pub iter_name: Option<String>,
+    pub src: Option<String>,
+    pub ty: Option<String>,
+    pub lines: Vec<String>,
+}
+
+/// R25 (opt-in, `//@ fold-loop [iter=<name>] [src=<name>]`): the (single) expression `RECV.fold(INIT, |a, x| E)` is rewritten to the loop that is the
+/// definition of `Iterator::fold` in core: `{ let mut vx_acc = INIT; [let SRC = RECV;] for x in [it: ]RECV { let a = vx_acc; vx_acc = E; } vx_acc }`.
+/// E is the source text (visited as usual). Raw lines split at `---`: ghost lines before the loop / loop spec / proof before `vx_acc = E;` / proof after it.
+#[derive(Clone, Debug, Default)]
+pub struct FoldLoop {
+    pub iter_name: Option<String>,
+    pub src: Option<String>,
+    pub lines: Vec<String>,
 }
 
 #[derive(Clone, Debug, Default)]
@@ -113,6 +155,8 @@ pub struct ImplDir {
     pub selector: String,
     pub header: Option<String>,
     pub keep_types: bool,
+    /// R23 (`//@in-fn impl T :: fn f`): the impl block is an item statement inside the body of that fn
+    pub in_fn: Option<String>,
     pub fns: Vec<FnDirective>,
     pub consts: Vec<(String, Vec<String>)>,
 }
@@ -169,6 +213,8 @@ enum Target {
     Anchor(usize),
     LetAs(usize),
     MapFold,
+    MapCollect(usize),
+    FoldLoop,
     ExpectBody,
     None,
 }
@@ -201,6 +247,8 @@ fn parse_fn_block(name_line: &str, lines: &[(bool, String)]) -> FnDirective {
                 Target::Anchor(k) => f.anchors[k].lines.push(l.clone()),
                 Target::LetAs(k) => f.let_as[k].expect.push(l.clone()),
                 Target::MapFold => f.map_fold.as_mut().unwrap().lines.push(l.clone()),
+                Target::MapCollect(k) => f.map_collect[k].lines.push(l.clone()),
+                Target::FoldLoop => f.fold_loop.as_mut().unwrap().lines.push(l.clone()),
                 Target::ExpectBody => f.expect_body.push(l.clone()),
                 Target::None => die(&format!("raw line without target: {}", l)),
             }
@@ -262,6 +310,38 @@ fn parse_fn_block(name_line: &str, lines: &[(bool, String)]) -> FnDirective {
                 }
                 curfn!().map_fold = Some(MapFold { var, iter_name, ty, lines: vec![] });
                 tgt = Target::MapFold;
+            }
+            "hoist-items" => curfn!().hoist_items = true,
+            "full-range-mut-as-slice" => curfn!().full_range_mut = true,
+            "eta-ctor" => curfn!().eta_ctor.extend(rest.split_whitespace().map(|x| x.to_string())),
+            "map-collect-loop" => {
+                let mut it = rest.split_whitespace();
+                let nth: usize = it.next().and_then(|x| x.parse().ok()).unwrap_or_else(|| die("map-collect-loop needs ordinal"));
+                let mut mc = MapCollect { nth, ..Default::default() };
+                for o in it {
+                    if let Some(v) = o.strip_prefix("iter=") {
+                        mc.iter_name = Some(v.to_string());
+                    } else if let Some(v) = o.strip_prefix("src=") {
+                        mc.src = Some(v.to_string());
+                    } else if let Some(v) = o.strip_prefix("ty=") {
+                        mc.ty = Some(v.to_string());
+                    }
+                }
+                let f = curfn!();
+                f.map_collect.push(mc);
+                tgt = Target::MapCollect(f.map_collect.len() - 1);
+            }
+            "fold-loop" => {
+                let mut fl = FoldLoop::default();
+                for o in rest.split_whitespace() {
+                    if let Some(v) = o.strip_prefix("iter=") {
+                        fl.iter_name = Some(v.to_string());
+                    } else if let Some(v) = o.strip_prefix("src=") {
+                        fl.src = Some(v.to_string());
+                    }
+                }
+                curfn!().fold_loop = Some(fl);
+                tgt = Target::FoldLoop;
             }
             "loop" => {
                 let mut it = rest.split_whitespace();
@@ -470,7 +550,7 @@ pub fn parse_template(tpl: &str) -> Unit {
             "impl" => {
                 unit.segments.push(Segment::Text(std::mem::take(&mut text)));
                 let (file, sel) = rest.split_once(" :: ").unwrap_or_else(|| die("impl needs <file> :: <selector>"));
-                let mut imd = ImplDir { file: file.trim().to_string(), selector: sel.trim().to_string(), header: None, keep_types: false, fns: vec![], consts: vec![] };
+                let mut imd = ImplDir { file: file.trim().to_string(), selector: sel.trim().to_string(), header: None, keep_types: false, in_fn: None, fns: vec![], consts: vec![] };
                 loop {
                     if i >= lines.len() {
                         die("unterminated //@impl");
@@ -489,6 +569,7 @@ pub fn parse_template(tpl: &str) -> Unit {
                         "endimpl" => break,
                         "header" => imd.header = Some(r.to_string()),
                         "keep-types" => imd.keep_types = true,
+                        "in-fn" => imd.in_fn = Some(r.to_string()),
                         "const" => {
                             let mut sp = vec![];
                             while i < lines.len() && lines[i].trim_start().starts_with("//@|") {
